@@ -26,7 +26,10 @@ RULE = ('units: cp = every code point 0..0x10FFFF in 5 contexts (alone, a?b, 0?0
         'construction); rand = seeded random entry lists (all 8 tags, hostile '
         'paths, sizes to >2**64, 0-10 checksums, timestamps years 1..9999); fix = '
         'parser-accepted grammar/mutation texts re-dumped to a fixed point; file = '
-        'round trip through real files per compression format. Non-trivial = every '
+        'round trip through real files per compression format; interleaved = two files '
+        '(all 25 format pairs) open at the same time; TIMESTAMP lists repeated under 3 '
+        'other TZ settings; microsecond timestamps; native == after reload. Non-trivial '
+        '= every '
         'case whose entry list is non-empty; distinct = distinct entry lists / texts '
         '(hash of the materialised case).')
 ANCHORS = ['manifest:ManifestFile.load', 'manifest:ManifestFile.dump',
